@@ -42,6 +42,7 @@ import Relic.Driver.Readers
 import Relic.Driver.Cosign
 import Relic.Driver.TsaX
 import Relic.Driver.Xar
+import Relic.Driver.CsVerify
 open Relic
 
 def dispatch (line : String) : String :=
@@ -88,6 +89,7 @@ def dispatch (line : String) : String :=
   | "XAP" :: rest => Relic.Driver.Xap.handle rest
   | "MSIS" :: rest => Relic.Driver.MsiSign.handle rest
   | "DMG" :: rest => Relic.Driver.Dmg.handle rest
+  | "CSV" :: rest => Relic.Driver.CsVerify.handle rest
   | "CHTTP" :: rest => Relic.Driver.CHttp.handle rest
   | "RD" :: rest => Relic.Driver.Readers.handle rest
   | "COSIGN" :: rest => Relic.Driver.Cosign.handleCosign rest
